@@ -104,6 +104,7 @@ enum Kind {
     EventPayload(&'static str),
     Wire(&'static str),
     Archive,
+    PairUrl,
 }
 
 impl Kind {
@@ -117,8 +118,92 @@ impl Kind {
             Kind::EventPayload(t) => format!("event:{t}"),
             Kind::Wire(t) => format!("wire:{t}"),
             Kind::Archive => "file:archive".into(),
+            Kind::PairUrl => "url:pairing".into(),
         }
     }
+}
+
+
+/// `sos_net` is not linked into the simulator (reqwest, websockets). The pairing
+/// URL parser is one self-contained source file of it: it is compiled here from
+/// /repo's working tree as it stands; only the error enum it converts into is a
+/// stand-in (same variants / `From` conversions as `sos_net::pairing::Error`
+/// for the errors this file can produce).
+pub mod pairing_shim {
+    #[derive(Debug, thiserror::Error)]
+    pub enum Error {
+        #[error("invalid pairing url")]
+        InvalidShareUrl,
+        #[error(transparent)]
+        Url(#[from] url::ParseError),
+        #[error(transparent)]
+        Hex(#[from] hex::FromHexError),
+        #[error(transparent)]
+        Core(#[from] sos_core::Error),
+        #[error(transparent)]
+        Slice(#[from] std::array::TryFromSliceError),
+    }
+    pub type Result<T> = std::result::Result<T, Error>;
+    #[allow(dead_code, unused_imports)]
+    #[path = "/repo/crates/net/src/pairing/share_url.rs"]
+    pub mod share_url;
+}
+
+/// Text-level damage to a pairing URL (what a mistyped, cut, re-encoded or
+/// hostile QR code / pasted string looks like).
+fn url_mutants(orig: &str, r: &mut Rng) -> Vec<(String, Vec<u8>)> {
+    let mut out: Vec<(String, Vec<u8>)> = vec![];
+    let b = orig.as_bytes();
+    for t in 0..b.len() {
+        out.push(("truncate".into(), b[..t].to_vec()));
+    }
+    for _ in 0..60 {
+        let mut m = b.to_vec();
+        let pos = r.below(m.len() as u64) as usize;
+        m[pos] = *r.pick(&[b'%', b'&', b'=', b'?', b'#', b'+', b'/', b':', b',', 0u8, 0xff, 0xc3, b' ', b'g', b'0', b'x']);
+        out.push(("tag_byte".into(), m));
+    }
+    for _ in 0..40 {
+        let mut m = b.to_vec();
+        let bit = r.below((m.len() * 8) as u64) as usize;
+        m[bit / 8] ^= 1 << (bit % 8);
+        out.push(("bitflip".into(), m));
+    }
+    // parameter-level edits
+    if let Some((head, query)) = orig.split_once('?') {
+        let pairs: Vec<&str> = query.split('&').collect();
+        for i in 0..pairs.len() {
+            let mut p = pairs.clone();
+            p.remove(i);
+            out.push(("param_removed".into(), format!("{head}?{}", p.join("&")).into_bytes()));
+            let mut p = pairs.clone();
+            p.insert(0, pairs[i]);
+            out.push(("param_duplicated".into(), format!("{head}?{}", p.join("&")).into_bytes()));
+            let (k, v) = pairs[i].split_once('=').unwrap_or((pairs[i], ""));
+            for (name, nv) in [
+                ("param_empty", String::new()),
+                ("param_odd_hex", format!("{v}a")),
+                ("param_short", v.chars().take(v.len() / 2).collect::<String>()),
+                ("param_long", v.repeat(64)),
+                ("param_not_hex", "zz".repeat(32)),
+                ("param_0x", "0x".to_string()),
+                ("param_percent", "%".to_string()),
+                ("param_multibyte", "0x\u{e9}\u{e9}\u{e9}".to_string()),
+                ("param_one_char", "0".to_string()),
+            ] {
+                let mut p: Vec<String> = pairs.iter().map(|s| s.to_string()).collect();
+                p[i] = format!("{k}={nv}");
+                out.push((name.into(), format!("{head}?{}", p.join("&")).into_bytes()));
+            }
+        }
+        let mut p = pairs.clone();
+        p.reverse();
+        out.push(("params_reversed".into(), format!("{head}?{}", p.join("&")).into_bytes()));
+    }
+    for s in ["", "data:", "data:text/plain,sos-pair", "data:text/plain,sos-pair?", "data:text/plain,sos-pair?aid=0x", "data://text/plain,sos-pair?aid=0", "http://[::1", "data:text/plain,sos-pair?aid=0\u{e9}x"] {
+        out.push(("short_garbage".into(), s.as_bytes().to_vec()));
+    }
+    out
 }
 
 fn mutants(orig: &[u8], other: Option<&[u8]>, n: usize, r: &mut Rng) -> Vec<(String, Vec<u8>)> {
@@ -269,6 +354,22 @@ async fn feed(kind: Kind, bytes: Vec<u8>, scratch: PathBuf, account: AccountId) 
                     _ => CreateSet::decode(b).await.is_ok(),
                 };
                 if ok { "value" } else { "error" }
+            }
+            Kind::PairUrl => {
+                use pairing_shim::share_url::ServerPairUrl;
+                match std::str::from_utf8(&bytes) {
+                    Ok(t) => match t.parse::<ServerPairUrl>() {
+                        Ok(u) => {
+                            // what the accepting side does next with a parsed offer
+                            let _ = (u.account_id().to_string(), u.server().as_str().len(), u.public_key().len(), u.pre_shared_key());
+                            let back: url::Url = u.into();
+                            let _ = back.to_string().parse::<ServerPairUrl>();
+                            "value"
+                        }
+                        Err(_) => "error",
+                    },
+                    Err(_) => "error",
+                }
             }
             Kind::Archive => {
                 let p = scratch.join("m.zip");
@@ -440,6 +541,14 @@ pub async fn execute(plan: Plan, dir: &Path) -> RunOutcome {
             artefacts.push((Kind::Archive, b));
         }
     }
+    // a pairing URL as the offering device shows it (QR code / pasted text)
+    {
+        use pairing_shim::share_url::ServerPairUrl;
+        let server: url::Url = "http://192.168.1.8:5053/foo?bar=baz+qux".parse().expect("url");
+        let offer = ServerPairUrl::new(account_id, server, (0u8..32).map(|i| i.wrapping_mul(37) ^ 0x5a).collect());
+        let u: url::Url = offer.into();
+        artefacts.push((Kind::PairUrl, u.to_string().into_bytes()));
+    }
     dev.account = None;
 
     // ---- mutate and feed
@@ -456,7 +565,12 @@ pub async fn execute(plan: Plan, dir: &Path) -> RunOutcome {
         }
         let per = if matches!(kind, Kind::Archive) { n_mut / 4 } else { n_mut };
         let other = all.get((i + 1) % all.len()).map(|v| v.as_slice());
-        for (mname, m) in mutants(orig, other, per, &mut rng) {
+        let ms = if matches!(kind, Kind::PairUrl) {
+            url_mutants(std::str::from_utf8(orig).unwrap_or(""), &mut rng)
+        } else {
+            mutants(orig, other, per, &mut rng)
+        };
+        for (mname, m) in ms {
             total += 1;
             rec.case(&format!("{}:{}", kind.name(), mname));
             rec.stats.fault(&format!("bytes.{mname}"));
